@@ -147,6 +147,7 @@ def run_case(case):
                 check_partition(out, fail, plain.read_result(m), overlays[l], label, "level %d, re-read from disk" % l)
             if nxt == "disk" and st._memory_cache is not None:
                 st._memory_cache.forget_everything()
+        gone_levels = set()  # levels that were held as a value of a partition which is gone by now
         # siblings: further children of a partition that already has a child
         if L > 1 and not out["viol"]:
             for tag in ["s1", "s2"][: rng.randint(1, 2)]:
@@ -187,6 +188,7 @@ def run_case(case):
                         ffuncs.stage.forget(cid, j - 1, skind)
                         sgot = None
                         gc.collect()
+                        gone_levels.add(j - 1)
                         out["obs"]["holders_gone_before_the_next_child_was_made"] += 1
                 try:
                     got = ffuncs.sibling(cid, j, tag)
@@ -210,6 +212,8 @@ def run_case(case):
         # a child that lives in another cluster (another store) than its parent
         if L > 1 and not out["viol"]:
             j = rng.randint(1, L - 1)
+            if gone_levels:  # (aimed: the parent is a level whose last store went to a staging directory that is gone)
+                j = min(gone_levels) + 1
             sk = rng.sample(KEYPOOL, rng.randint(1, 3))
             sspec = {"kind": rng.choice(["mem", "disk"]), "make": level_factory(case["seed"], case["idx"], "sibx", sk), "container": "dict"}
             ffuncs.TABLE[cid + "/sib/x"] = sspec
